@@ -94,6 +94,18 @@ everything needed is clean); where they are false the two listed findings restat
 dirty-edge-deps-not-loaded appear, and they have to appear IDENTICALLY on both sides (same commands, same stale files):
 such builds are counted by shape.
 
+DEPFILE-ONLY STATEMENTS (coq/Engine/HistDepfileDefs.v fbuild, theorems in Properties_C10depfile.v; used by props/c10.py,
+deps='depfile'): gen_graph's `depfile = X` statements without `deps =` are KEPT (also with several outputs), msvc becomes
+gcc, so manifests mix the two kinds; the depfiles on the disk are part of the model's state (`hist_run histf`, deps kind 1,
+step D<e> = the user removes the depfile: engine `step rm <depfile>`).  Compared in addition: per depfile-only statement the
+depfile exists in both or in neither and lists the same SET of names (the engine's text `out: names` canonicalised like
+tools/scanmodel.py does).  selfchecks only where the theorems are: frag_ABF (no deps = gcc), the side conditions, no
+depfile removed, no lost deps log, no tampered output.  fbuild has NO CleanNode-faithful variant (it re-scans: dirty_now_d), so
+the always-dirty deviation is back for these histories: below a statement that is dirty in every scan (it reads an input-less
+phony name, or one of its hidden reads is a missing source) the run-set rule is relaxed to engine <= model with the surplus
+below such a statement; exists / clean / log / times / deps / depfile are not compared for the outputs of those statements from
+then on (ninja prunes them and, where the listed restat finding applies, leaves them stale; fbuild re-runs them); COUNTED.
+
   check(ctx_or_None, seed, n, dry=0.0, fault=False, deps=False) -> (mismatches, stats)     mismatches: list of Mismatch (text, replay)
   python3 tools/histmodel.py <seed> <n> [--dry P] [--fault] [--deps] [--par] [--crash] [--keep DIR]      standalone
 
@@ -142,11 +154,14 @@ def strip_graph(g, rnd=None, no_inputless_phony=False):
 
 GARBAGE_BASE = 10 ** 9        # model contents written by failing commands: GARBAGE_BASE + 1000 * k + node
 
-def gcc_only(g):
-    """fragment ABD: every statement with discovered reads is deps = gcc (one output); hidden reads listed once"""
+def gcc_only(g, keep_depfile=False):
+    """fragment ABD: every statement with discovered reads is deps = gcc (one output); hidden reads listed once.
+    keep_depfile: depfile-only statements stay what they are (HistDepfileDefs), only msvc is rewritten"""
     for e in g.edges:
         if not (e.deps or e.depfile): e.hidden = []; continue
-        if len(e.outs) == 1 and not e.phony:
+        if keep_depfile and e.depfile and not e.deps and not e.phony:
+            e.hidden = [x for i, x in enumerate(e.hidden) if x not in e.hidden[:i]]
+        elif len(e.outs) == 1 and not e.phony:
             e.deps = 'gcc'; e.depfile = e.out0 + '.d'
             e.hidden = [x for i, x in enumerate(e.hidden) if x not in e.hidden[:i]]
         else:
@@ -161,9 +176,9 @@ def gen_history(rnd, sid, outside=False, dry=0.0, fault=False, deps=False, par=F
     wf_reads = True
     if deps: feat['deps'] = 0.6; wf_reads = rnd.random() < 0.75
     g = strip_graph(engine.gen_graph(rnd, rnd.randrange(3, 13) if par else rnd.randrange(2, 10), feat, wf_reads), rnd, no_inputless_phony=fault)
-    if deps: gcc_only(g)
+    if deps: gcc_only(g, keep_depfile=(deps == 'depfile'))
     h = ec.Hist(sid, g)
-    h.deps_mode = bool(deps); h.wf_reads = wf_reads; h.par_mode = bool(par)
+    h.deps_mode = bool(deps); h.depfile_mode = (deps == 'depfile'); h.wf_reads = wf_reads; h.par_mode = bool(par)
     fstate = dict(todo=fault)
     allouts = [o for e in g.edges for o in e.outs]
     used_sources = sorted({i for e in g.edges for i in e.manifest_ins() + e.vals if i in g.sources})
@@ -215,7 +230,7 @@ def gen_history(rnd, sid, outside=False, dry=0.0, fault=False, deps=False, par=F
         return None
     def motif():
         """the two situations the side conditions of Properties_C10hist exclude, set up on purpose"""
-        de = [e for e in g.edges if e.deps and e.hidden]
+        de = [e for e in g.edges if (e.deps or e.depfile) and e.hidden]
         rnd.shuffle(de)
         for e in de:
             hs = [x for x in e.hidden if x in g.sources]; u = upstream_restat(e)
@@ -240,10 +255,13 @@ def gen_history(rnd, sid, outside=False, dry=0.0, fault=False, deps=False, par=F
         r = rnd.random()
         ne = [e for e in g.edges if not e.phony]
         if deps and r < 0.15 and motif(): pass
+        elif deps == 'depfile' and 0.19 <= r < 0.25 and [e for e in g.edges if e.depfile and not e.deps]:
+            e = rnd.choice([e for e in g.edges if e.depfile and not e.deps])
+            h.add(ec.Step('rm', 'step rm %s' % hx(e.depfile), path=e.depfile)); h.tags.add('rm-depfile')
         elif deps and 0.15 <= r < 0.19:
             # outside the histories of the theorems, inside what the model defines: the deps log is lost / an output of a deps
             # statement is overwritten by hand (its record is then older than the file)
-            de = [e for e in g.edges if e.deps]
+            de = [e for e in g.edges if e.deps or e.depfile]
             if rnd.random() < 0.5 or not de: h.add(ec.Step('dropdeps', 'step dropdeps')); h.tags.add('dropdeps')
             else:
                 o = rnd.choice(de).out0
@@ -417,7 +435,9 @@ class Map:
                 if p not in s.names: s.names.append(p)
         s.deps_mode = bool(getattr(h, 'deps_mode', False)); s.par_mode = bool(getattr(h, 'par_mode', False))
         s.trace = list(ec.pair(h, builds)) if builds else []
-        s.mode = 'histd' if s.deps_mode else 'hist'
+        s.depfile_mode = bool(getattr(h, 'depfile_mode', False))
+        s.mode = 'histf' if s.depfile_mode else ('histd' if s.deps_mode else 'hist')
+        s.dfile = {e.depfile: k for k, e in enumerate(g.edges) if e.depfile and not e.deps}      # depfile path -> position
         s.by_out0 = {e.out0: k for k, e in enumerate(g.edges)}      # out0 -> position
         s.cid = {}                                                   # content string -> number
         s.known_hash = {}                                            # command text -> ninja's hash of it (learnt from the trace)
@@ -498,6 +518,7 @@ class Map:
                 S.append('e%d:%d' % (ID[st.path], s.content(c)))
             elif st.kind == 'touch':
                 if st.path in cur: S.append('e%d:%d' % (ID[st.path], s.content(cur[st.path])))
+            elif st.kind == 'rm' and s.depfile_mode and st.path in s.dfile: S.append('D%d' % s.num[s.dfile[st.path]])
             elif st.kind == 'rm':
                 cur.pop(st.path, None); S.append('d%d' % ID[st.path])
             elif st.kind == 'dropdeps' and s.deps_mode: S.append('x')
@@ -531,7 +552,7 @@ class Map:
         if not s.deps_mode: return 'N=%d E=%s L=- S=%s' % (len(s.names), ';'.join(E) or '-', ','.join(S) or '-')
         mentioned = {p for e in g.edges for p in e.exp + e.imp + e.oo + e.outs + e.vals}
         L = ','.join(str(ID[p]) for p in s.names if p not in mentioned) or '-'
-        H = ';'.join('%d:%s' % (s.num[pos], j(e.hidden)) for pos, e in enumerate(g.edges) if e.hidden and e.deps) or '-'
+        H = ';'.join('%d:%s' % (s.num[pos], j(e.hidden)) for pos, e in enumerate(g.edges) if e.hidden and (e.deps or e.depfile)) or '-'
         return 'N=%d E=%s L=%s H=%s S=%s' % (len(s.names), ';'.join(E) or '-', L, H, ','.join(S) or '-')
     def prev_edges(s, h, st):
         """the statements as they were before this manifest rewrite"""
@@ -560,7 +581,12 @@ def parse_model(out, m):
         raw = [] if raw == '-' else [int(x) for x in raw.split('+')]
         bf = kv.get('bf'); bf = None if bf is None else ([] if bf == '-' else [m.order[int(x)] for x in bf.split('+')])
         old = kv.get('old'); old = None if old is None else ([] if old == '-' else [m.order[int(x)] for x in old.split('+')])
-        builds.append(dict(what=bl.split()[0], ok=kv['ok'] == '1', raw=raw, run=[m.order[x] for x in raw], nodes=nodes, old=old, oldok=kv.get('oldok', kv['ok']) == '1',
+        df = None
+        if 'df' in kv:
+            df = {}
+            for it in ([] if kv['df'] == '-' else kv['df'].split('/')):
+                e_, ns = it.split(':'); df[m.order[int(e_)]] = [] if ns == '-' else [m.names[int(x)] for x in ns.split('+')]
+        builds.append(dict(what=bl.split()[0], df=df, ok=kv['ok'] == '1', raw=raw, run=[m.order[x] for x in raw], nodes=nodes, old=old, oldok=kv.get('oldok', kv['ok']) == '1',
                            ts=kv.get('ts', '1') == '1', tss=kv.get('tss', kv.get('ts', '1')) == '1', failed=kv.get('failed') == '1',
                            hit=kv.get('hit') == '1', exit=int(kv['exit']) if 'exit' in kv else None,
                            res=kv.get('res'), acc=int(kv['acc']) if 'acc' in kv else None, bf=bf, bfok=kv.get('bfok') == '1', conf=kv.get('conf') == '1',
@@ -581,6 +607,23 @@ def through_phony(g, prod, i, depth=0):
         if depth > 60: return []
         return [x for j in p.exp + p.imp + p.oo for x in through_phony(g, prod, j, depth + 1)]
     return [p]
+
+def tainted_statements(g, sources):
+    """(only for the depfile-only model, whose build loop re-scans)  positions of the real statements that read (non-order-only
+    or hidden, through any statements) an output of a real statement that is dirty in EVERY scan: it reads an input-less phony
+    name (directly or through phony aliases), or one of its hidden reads is a source file that does not exist now"""
+    disc = lambda e: e.hidden if (e.deps or e.depfile) else []
+    ad = {x for e in g.edges for x in disc(e) if x in g.sources and x not in sources}
+    for e in g.edges:
+        if e.phony and (not e.manifest_ins() or any(i in ad for i in e.exp + e.imp)): ad |= set(e.outs)
+    tn = set(); res = set()
+    for k, e in enumerate(g.edges):
+        nonoo = e.exp + e.imp + disc(e)
+        if any(i in tn for i in nonoo):
+            tn |= set(e.outs)
+            if not e.phony: res.add(k)
+        elif not e.phony and any(i in ad for i in nonoo): tn |= set(e.outs)
+    return res
 
 def depends_on(g, f):
     """positions of the statements that depend on an output of statement f (transitively, inputs of every kind)"""
@@ -641,6 +684,10 @@ def compare_build(h, m, st, b, mb, prev_ok_same, nip, cnt, prev=None, flags=None
     if len(set(e_run)) != len(e_run): bad.append(('run-set', 'engine started a command twice: %s' % e_started))
     if e_run != m_run:
         if kind == 'dry': bad.append(('dry-list', 'commands listed by -n: engine %s, model %s' % (nm(e_run), nm(m_run))))
+        elif m.depfile_mode and set(e_run) <= set(m_run) and (set(m_run) - set(e_run)) <= tainted_statements(g, st.sources):
+            # fbuild re-scans (no faithful variant yet): below a statement that is dirty in every scan it re-runs what ninja prunes
+            cnt['builds where fbuild re-ran statements ninja pruned below an always-dirty one (known deviation, no faithful fbuild)'] += 1
+            cnt['... statements re-run by fbuild only'] += len(set(m_run) - set(e_run))
         else:
             bad.append(('run-set', 'commands %s: engine %s, model %s' % ('started' if kind == 'fault' else 'run', nm(e_run), nm(m_run))))
     # the model's order is the statement order; the engine's must respect the dependencies
@@ -721,7 +768,14 @@ def compare_build(h, m, st, b, mb, prev_ok_same, nip, cnt, prev=None, flags=None
     # per node
     try: exp = g.clean_contents(st.sources)
     except RecursionError: exp = None
+    drift_out = set()
+    if m.depfile_mode:
+        # (fbuild only) what the surplus statements write is compared no further: ninja prunes them -- and leaves them STALE when
+        # the listed finding restat-prune-ignores-recorded-deps applies to them -- while fbuild re-runs them
+        flags.setdefault('drift', set()).update(tainted_statements(g, st.sources))
+        drift_out = {o for k_ in flags['drift'] for o in g.edges[k_].outs}
     for n in m.names:
+        if n in drift_out: continue
         mx, mq = mb['nodes'][n][:2]
         ex = n in b.files
         if ex != mx: bad.append(('exists', '%s after the build: engine %s, model %s' % (n, 'exists' if ex else 'missing', 'exists' if mx else 'missing')))
@@ -732,8 +786,10 @@ def compare_build(h, m, st, b, mb, prev_ok_same, nip, cnt, prev=None, flags=None
     # build-log entries and the time relations the dirty test reads: entry present, entry made by the current command line,
     # recorded mtime against the output's own mtime and against every non-order-only input's; output against input
     sgn = lambda a, b: (a > b) - (a < b)
+    if m.depfile_mode: flags.setdefault('drift', set()).update(tainted_statements(g, st.sources))
+    drift = flags.get('drift', set()) if m.depfile_mode else set()
     for k, e in enumerate(g.edges):
-        if e.phony: continue
+        if e.phony or k in drift: continue
         sn = b.snap.get(e.out0)
         if sn and sn.get('hash'): m.known_hash[e.eval_command()] = int(sn['hash'], 16)
         cur = m.known_hash.get(e.eval_command())
@@ -745,7 +801,7 @@ def compare_build(h, m, st, b, mb, prev_ok_same, nip, cnt, prev=None, flags=None
             cnt['log entries compared'] += 1
             if cur is not None and (int(el[0], 16) == cur) != (ml[0] == m.hash_of(k, e)):
                 bad.append(('log', 'log entry of %s carries the current command hash: engine %s, model %s' % (o, int(el[0], 16) == cur, ml[0] == m.hash_of(k, e))))
-            rd = sorted(set(e.exp + e.imp + (e.hidden if e.deps else [])))
+            rd = sorted(set(e.exp + e.imp + (e.hidden if (e.deps or e.depfile) else [])))
             rel = [(o, 'log', o)] + [(i, 'log', o) for i in rd] + [(i, 'file', o) for i in rd]
             for i, what, _ in rel:
                 if i not in b.files or mb['nodes'][i][3] is None or (what == 'file' and (o not in b.files or mn[3] is None)): continue
@@ -757,8 +813,22 @@ def compare_build(h, m, st, b, mb, prev_ok_same, nip, cnt, prev=None, flags=None
                     nms = {1: 'newer than', 0: 'equal to', -1: 'older than'}
                     bad.append(('times', '%s is %s the mtime of %s in the engine, %s in the model' % (w, nms[ev], i, nms[mv])))
     # deps-log records: present, the same set of nodes, record mtime against the output's mtime
+    if m.depfile_mode:
+        # the depfiles of the depfile-only statements: on disk in both or in neither, listing the same set of names
+        import scanmodel
+        for k, e in enumerate(g.edges):
+            if not e.depfile or e.deps or e.phony or k in drift: continue
+            ef = b.files.get(e.depfile); mf = mb['df'].get(k)
+            if (ef is not None) != (mf is not None):
+                bad.append(('depfile', 'depfile %s: engine %s, model %s' % (e.depfile, 'exists' if ef else 'missing', 'exists' if mf is not None else 'missing'))); continue
+            if ef is None: continue
+            cnt['depfiles compared'] += 1
+            pd = scanmodel.parse_depfile(ef[1])
+            if pd[0] != 'p' or pd[1] != [e.out0]: bad.append(('depfile', 'depfile %s of the engine is not "out0: names": %r' % (e.depfile, ef[1][:80])))
+            elif set(pd[2]) != set(mf): bad.append(('depfile', 'depfile %s lists %s in the engine, %s in the model' % (e.depfile, sorted(set(pd[2])), sorted(set(mf)))))
     if m.deps_mode:
         for n in m.names:
+            if prod.get(n) is not None and m.by_out0.get(prod[n].out0) in drift: continue
             er = b.deps.get(n); mr = mb['nodes'][n][5]
             if (er is not None) != (mr is not None):
                 bad.append(('deps', 'deps record of %s: engine %s, model %s' % (n, 'present' if er else 'absent', 'present' if mr else 'absent'))); continue
@@ -774,7 +844,7 @@ def compare_build(h, m, st, b, mb, prev_ok_same, nip, cnt, prev=None, flags=None
         # on both sides (the clean rule above); counted by shape
         targets = st.targets or ec.default_targets(g)
         clo = g.closure(targets, with_vals=False)
-        unclean = {n for n in clo if n in mb['nodes'] and not mb['nodes'][n][1] and prod.get(n) is not None}
+        unclean = {n for n in clo if n in mb['nodes'] and not mb['nodes'][n][1] and prod.get(n) is not None and n not in drift_out}
         both = exp is not None and all((b.files.get(n, (0, None))[1]) != exp.get(n) for n in unclean)
         if unclean and both:
             started = set(e_started)
@@ -784,8 +854,8 @@ def compare_build(h, m, st, b, mb, prev_ok_same, nip, cnt, prev=None, flags=None
                     if p_ is None or p_.idx in seen: continue
                     if (p_.restat and p_.out0 in started) or restat_ran_upstream(p_, seen + (e.idx,)): return True
                 return False
-            shape_restat = [e for e in g.edges if e.deps and e.hidden and e.out0 in unclean and e.out0 not in started and restat_ran_upstream(e)]
-            shape_notloaded = [e for e in g.edges if e.deps and e.out0 in started and
+            shape_restat = [e for e in g.edges if (e.deps or e.depfile) and e.hidden and e.out0 in unclean and e.out0 not in started and restat_ran_upstream(e)]
+            shape_notloaded = [e for e in g.edges if (e.deps or e.depfile) and e.out0 in started and
                                any(prod.get(x) is not None and not mb['nodes'][x][1] and x not in e.manifest_ins() for x in e.hidden)]
             if shape_restat and not flags['nru']:
                 cnt['successful builds with a deps statement pruned below a restat statement, stale (id=restat-prune-ignores-recorded-deps, identical on both sides)'] += 1
@@ -832,7 +902,7 @@ def compare_hists(hists, keep=None):
     # comparing what it left with the same build run to its end (the reference scenario)
     maps = [Map(h, tr.get(h.sid), tr.get(getattr(h, 'kill_ref', None))) for h in hists]
     mouts = [None] * len(maps)
-    for mode in ('hist', 'histd'):
+    for mode in ('hist', 'histd', 'histf'):
         idx = [i for i, m in enumerate(maps) if m.mode == mode]
         if idx:
             for i, o in zip(idx, run_model([maps[i].line for i in idx], mode=mode)): mouts[i] = o
@@ -854,6 +924,7 @@ def compare_hists(hists, keep=None):
         replay = lambda: ec.replay_text(h) + '# hist-model-line ' + m.line + '\n# hist-model-output ' + mo + '\n'
         if not r['hok'] and 'tampered output' in h.tags: r['hok'] = True; r['hp'] = False      # expected; no theorem applies
         if 'dropdeps' in h.tags: r['hp'] = False
+        if m.depfile_mode and (not r.get('abf', True) or 'rm-depfile' in h.tags): r['hp'] = False        # outside the theorems of Properties_C10depfile
         if not r['wf'] or not r['hok']:
             mism.append(Mismatch(h.sid, 'mapping', 'the model line is malformed (wf=%s hist_ok=%s)' % (r['wf'], r['hok']), replay())); continue
         if m.kill is not None and m.kill[0] == 'skip':
@@ -881,8 +952,11 @@ def compare_hists(hists, keep=None):
         if getattr(h, 'kill_ref', None): flags['ref'] = tr[h.kill_ref][-1]
         if m.deps_mode:
             if any(e.deps and e.hidden for e in h.g0.edges): st_['histories with a deps statement that has hidden reads'] += 1
+            if any(e.depfile and not e.deps for e in h.g0.edges): st_['histories with a depfile-only statement'] += 1
+            if any(e.depfile and not e.deps for e in h.g0.edges) and any(e.deps for e in h.g0.edges): st_['histories mixing depfile-only and deps = gcc statements'] += 1
+            if m.depfile_mode and r.get('abf'): st_['inside, fragment ABF (no deps = gcc statement)'] += 1
             for k_ in ('hro', 'nru', 'hp'):
-                if not r[k_]: st_['inside, %s false' % {'hro': 'hidden_reads_ordered', 'nru': 'no_restat_upstream_of_deps', 'hp': 'hist_present'}[k_]] += 1
+                if not r[k_]: st_['inside, %s' % {'hro': 'hidden_reads_ordered false', 'nru': 'no_restat_upstream_of_deps false', 'hp': ('outside the histories of the theorems (a deps = gcc statement, a removed depfile, a lost deps log, a tampered output, or hist_present false)' if m.depfile_mode else 'hist_present false')}[k_]] += 1
         for k, ((st, b), mb) in enumerate(zip(prs, r['builds'])):
             kind = step_kind(st)
             if kind == 'intr' and m.intr is None: kind = 'plain'; st_['interrupt points after the last command (plain build)'] += 1
@@ -993,15 +1067,15 @@ def hook(ctx, pid, dry=0.0, fault=False, deps=False, par=False, quick=400, thoro
         return
     handle = start_proof_check(ctx)
     n = quick if ctx.quick() else thorough
-    mism, stats = check(ctx, ctx.seed * 31 + int(pid[1:]) + (500 if par else 0), n, dry=dry, fault=fault, deps=deps, par=par)
+    mism, stats = check(ctx, ctx.seed * 31 + int(pid[1:]) + (500 if par else 0) + (700 if deps == 'depfile' else 0), n, dry=dry, fault=fault, deps=deps, par=par)
     finish_proof_check(ctx, handle)
     for x in mism[:5]:
         ctx.corr_broken.append('history model (HistDefs) differs from ninja in scenario %s [%s]: %s' % (x.sid, x.kind, x.text[:600]))
         ctx.replay_file('hist-mismatch', x.replay)
     if len(mism) > 5: ctx.corr_broken.append('history model (HistDefs): %d more mismatching histories' % (len(mism) - 5))
-    ctx.cov['hist_model_correspondence' + ('_parallel' if par else '')] = stats
+    ctx.cov['hist_model_correspondence' + ('_parallel' if par else '') + ('_depfile' if deps == 'depfile' else '')] = stats
     extra = [k for k in stats if k.startswith(('dry runs', 'failing builds', 'commands listed', 'successful builds', '... where', 'histories whose statements', 'builds where HistDefs', '... statements', 'schedule', 'builds with at',
-                                               'deps records', 'inside, ', 'histories cut short', 'histories with a deps'))]
+                                               'deps records', 'inside, ', 'histories cut short', 'histories with a dep', 'histories mixing', 'depfiles', 'builds where fbuild', 'histories with rm-depfile'))]
     ctx.cov.setdefault('distribution', {})[key] = {k: stats.get(k, 0) for k in extra + [
         'histories', 'inside the fragment', 'outside the fragment (model verdict)',
         'builds compared', 'builds that ran commands', 'builds refused by both', 'repeated builds compared (idle in both)',
@@ -1060,7 +1134,7 @@ if __name__ == '__main__':
         for k in sorted(stats): print('%-60s %s' % (k, stats[k]))
         for x in mism[:10]: print('MISMATCH', x)
         print('%d bases, %d mismatching, %.1fs' % (n, len(mism), time.time() - t0)); sys.exit(1 if mism else 0)
-    mism, stats = check(None, seed, n, keep=keep, dry=dry, fault='--fault' in a, deps='--deps' in a, par='--par' in a)
+    mism, stats = check(None, seed, n, keep=keep, dry=dry, fault='--fault' in a, deps=('depfile' if '--depfile' in a else '--deps' in a), par='--par' in a)
     for k in sorted(stats): print('%-60s %s' % (k, stats[k]))
     for x in mism[:10]:
         print('MISMATCH', x)
